@@ -93,7 +93,9 @@ def h(cfg):
     check_all(items)
     # with balancing off, removing an unrelated task leaves the dates unchanged
     if not P.balance and cfg.get('removal'):
-        cands = [u for u in range(P.n) if P.leaf[u] and (P.parent[u] == -1 or len(P.children[P.parent[u]]) > 1)]
+        # the removed task must itself be free of dependencies: a link to a removed task would dangle outside the WBS
+        cands = [u for u in range(P.n) if P.leaf[u] and (P.parent[u] == -1 or len(P.children[P.parent[u]]) > 1)
+                 and not any(a == u or b == u for a, b in P.links)]
         if not cands:
             return
         u = cands[choose('remove', len(cands))]
